@@ -3,7 +3,7 @@ specification (spec/trace/Trace_*.tla) that reuses the operators of the main spe
 from __future__ import annotations
 import os, json, tempfile, shutil, subprocess, concurrent.futures as cf
 from .common import MachineryError, VERIF
-from .tlc import SPEC, JAR, DEPS
+from .tlc import SPEC, JAR, DEPS, die_with_parent
 
 
 def _run_shard(module: str, events: list[dict], idx: int, tmp: str, timeout: int):
@@ -15,7 +15,7 @@ def _run_shard(module: str, events: list[dict], idx: int, tmp: str, timeout: int
            '-metadir', os.path.join(tmp, f'meta_{idx}'), '-noGenerateSpecTE', '-config', 'Trace.cfg', module]
     env = dict(os.environ, TRACE_FILE=path)
     env.pop('JAVA_TOOL_OPTIONS', None)
-    p = subprocess.run(cmd, cwd=os.path.join(SPEC, 'trace'), capture_output=True, text=True, env=env, timeout=timeout)
+    p = subprocess.run(cmd, cwd=os.path.join(SPEC, 'trace'), capture_output=True, text=True, env=env, timeout=timeout, preexec_fn=die_with_parent)
     verdicts = {}
     errors = []
     for line in p.stdout.splitlines():
